@@ -384,9 +384,13 @@ class Registry(object):
             self._violation(o, info, reproduced=None)
         else:
             o.merge("undecided")
-            o.detail = {"reason": "counter-model did not replay on the real code "
-                                  "(artefact of an uninterpreted symbol or spec mismatch)",
-                        "info": info}
+            if isinstance(info.get("replay"), dict) and "replay_error" in info["replay"]:
+                last = info["replay"]["replay_error"].strip().splitlines()[-1]
+                o.detail = {"reason": "replay adapter raised (%s); obligation not discharged" % last, "info": info}
+            else:
+                o.detail = {"reason": "counter-model did not replay on the real code "
+                                      "(artefact of an uninterpreted symbol or spec mismatch)",
+                            "info": info}
         return False
 
     def prove_by_cases(self, oid, assumptions, goal, atoms, **kw):
